@@ -417,7 +417,7 @@ func c12TamperMerkle(p *merkle.Proof, mut, arg int) *merkle.Proof {
 
 // c12RealStore runs a few ranges, including one-block ranges, against the real go-header store.
 func c12RealStore(t *testing.T, r *zv.Run) {
-	ctx, cancel := context.WithTimeout(context.Background(), 60*time.Second)
+	ctx, cancel := context.WithTimeout(context.Background(), 300*time.Second)
 	defer cancel()
 	suite := headertest.NewTestSuite(t)
 	headers := suite.GenExtendedHeaders(12)
@@ -432,16 +432,20 @@ func c12RealStore(t *testing.T, r *zv.Run) {
 	if err := st.Append(ctx, headers...); err != nil {
 		t.Fatal(err)
 	}
-	// wait until the head is visible (Append is applied asynchronously)
-	for {
-		h, err := st.Head(ctx)
-		if err == nil && h.Height() == headers[len(headers)-1].Height() {
-			break
-		}
-		select {
-		case <-ctx.Done():
-			t.Fatal("real store did not reach the appended head")
-		case <-time.After(5 * time.Millisecond):
+	// Append is applied asynchronously: flush, then wait (event-free API: poll) until every height is readable
+	if err := st.Sync(ctx); err != nil {
+		t.Fatal(err)
+	}
+	for _, h := range headers {
+		for {
+			if got, err := st.GetByHeight(ctx, h.Height()); err == nil && got.Height() == h.Height() {
+				break
+			}
+			select {
+			case <-ctx.Done():
+				t.Fatal("real store did not serve the appended headers")
+			case <-time.After(5 * time.Millisecond):
+			}
 		}
 	}
 	svc := NewService(st)
